@@ -165,3 +165,33 @@ Definition wf_func (f : func) : bool :=
   nodupb (f_params f ++ binders_l (f_body f)) &&
   scoped_l (f_params f) (f_body f) &&
   in_scope (defs_l (f_body f) ++ f_params f) (f_ret f).
+
+(* the relaxed scoping the constant-propagation proof works with (its own output satisfies it, but not always
+   `scoped`): when the body of a loop ends in a Break at top level the loop values are never evaluated, and
+   the pass leaves in them names whose definitions (after that Break) it has dropped *)
+Definition ends_break (ss : list stmt) : bool :=
+  match rev ss with SBreak _ :: _ => true | _ => false end.
+
+Fixpoint scopedc (S : list name) (s : stmt) : bool :=
+  let fix go (S : list name) (ss : list stmt) : bool :=
+    match ss with [] => true | s :: r => scopedc S s && go (defs s ++ S) r end in
+  match s with
+  | SBin _ _ e1 e2 => in_scope S e1 && in_scope S e2
+  | SNot _ e | SPrim _ _ e | SBreak e => in_scope S e
+  | SCall _ args _ => forallb (in_scope S) args
+  | SIf c s1 s2 fas =>
+      in_scope S c && go S s1 && go S s2 &&
+      forallb (fun t => in_scope (defs_l s1 ++ S) (t_e1 t) && in_scope (defs_l s2 ++ S) (t_e2 t)) fas
+  | SSIf c _ ss => in_scope S c && go S ss
+  | SWhile lvs ss _ =>
+      forallb (fun t => in_scope S (t_e1 t)) lvs &&
+      go (map t_name lvs ++ S) ss &&
+      (ends_break ss || forallb (fun t => in_scope (defs_l ss ++ map t_name lvs ++ S) (t_e2 t)) lvs)
+  end.
+Fixpoint scopedc_l (S : list name) (ss : list stmt) : bool :=
+  match ss with [] => true | s :: r => scopedc S s && scopedc_l (defs s ++ S) r end.
+
+Definition wfc_func (f : func) : bool :=
+  nodupb (f_params f ++ binders_l (f_body f)) &&
+  scopedc_l (f_params f) (f_body f) &&
+  in_scope (defs_l (f_body f) ++ f_params f) (f_ret f).
